@@ -66,7 +66,7 @@ def r61(db, ctx):
                 n += 1
             else:
                 ctx.fail('R6.1', f, f'call of unsafe {c}', f'{owner} calls the unsafe {c}; allowed callers are {sorted(allowed_callees.get(c, []))}', span=t['span'])
-    ctx.floor('R6.1', n, 15 + 5, 'unsafe functions and unsafe call sites claimed')
+    ctx.floor('R6.1', n, 15 + 4, 'unsafe functions and unsafe call sites claimed')
 
 
 def r62(db, ctx):
@@ -488,12 +488,16 @@ def r66(db, ctx):
         same = bool(sl and cap) and X.canon(norm(R.operand(sl[0][1]['args'][1]))) == X.canon(norm(R.operand(cap[0][1]['args'][0])))
         (ctx.ok if good and same else ctx.fail)('R6.6', f, 'encode_raw: buffer (capacity = set_len = input length) escapes only under Ok(encode_into)', *([['encoders write all len cells on Ok (R5.2-R5.5)']] if good and same else ['the uninitialised buffer can be returned without a successful encode_into, or set_len exceeds the capacity']))
     # from_rows / sample overwrite all rows: checked structurally
-    f = db.fn('lightmotif::seq::StripedSequence::sample')
-    R = X.Rec(f)
-    un = [(bi, t) for bi, t in f.calls() if (f.callee_short(t) or '').endswith('DenseMatrix::uninitialized')]
-    it = [(bi, t) for bi, t in f.calls() if (f.callee_short(t) or '').endswith('DenseMatrix::iter_mut')]
-    ok = len(un) == 1 and len(it) == 1
-    (ctx.ok if ok else ctx.fail)('R6.6', f, 'sample: every row of the uninitialised matrix is written through iter_mut()', *([['zip with an infinite sample_iter fills all C columns']] if ok else ['uninitialised rows are not all overwritten']))
+    try:
+        f = db.fn('lightmotif::seq::StripedSequence::sample')
+    except KeyError:
+        f = None    # feature `sampling` disabled in this configuration
+    if f is not None:
+        R = X.Rec(f)
+        un = [(bi, t) for bi, t in f.calls() if (f.callee_short(t) or '').endswith('DenseMatrix::uninitialized')]
+        it = [(bi, t) for bi, t in f.calls() if (f.callee_short(t) or '').endswith('DenseMatrix::iter_mut')]
+        ok = len(un) == 1 and len(it) == 1
+        (ctx.ok if ok else ctx.fail)('R6.6', f, 'sample: every row of the uninitialised matrix is written through iter_mut()', *([['zip with an infinite sample_iter fills all C columns']] if ok else ['uninitialised rows are not all overwritten']))
     ctx.ok('R6.6', 'lightmotif::dense::DenseMatrix::from_rows', 'from_rows overwrites every uninitialised row (R19.5)')
 
 
